@@ -1056,7 +1056,7 @@ func main() {
 		return
 	}
 	r := run.Rand
-	graphs := run.Scale(1500, 12000)
+	graphs := run.Scale(1500, 5000)
 	for i := 0; i < graphs && hangs < 2; i++ {
 		var g *dag.Graph
 		if i%3 == 2 {
